@@ -5,8 +5,8 @@
 //!
 //! The orchestrator (`../check`) builds this crate against the tree under test, runs it,
 //! matches violations against known_findings.json and writes the evidence file.
-mod util; mod isol; mod sw; mod report; mod run; mod gen; mod drive; mod proj;
-mod c01; mod c02; mod c03; mod c04; mod c05; mod c06; mod c07; mod c08; mod c09; mod c10; mod c11; mod c12; mod c13; mod c14; mod c15; mod c16; mod c17; mod c18;
+mod util; mod isol; mod sw; mod report; mod run; mod gen; mod drive; mod proj; mod cli;
+mod c01; mod c02; mod c03; mod c04; mod c05; mod c06; mod c07; mod c08; mod c09; mod c10; mod c11; mod c12; mod c13; mod c14; mod c15; mod c16; mod c17; mod c18; mod c19; mod c20;
 
 use report::Report;
 use serde_json::{json, Value};
@@ -57,6 +57,8 @@ fn registry(id: &str) -> Option<(Explore, Replay)> {
         "C16" => (c16::explore, c16::replay),
         "C17" => (c17::explore, c17::replay),
         "C18" => (c18::explore, c18::replay),
+        "C19" => (c19::explore, c19::replay),
+        "C20" => (c20::explore, c20::replay),
         _ => return None,
     })
 }
